@@ -24,7 +24,7 @@ ASSUMPTIONS = [
     "an adversarial stream may be accepted only when it is a legal protocol run (first answer < 254 -> [a]; 254 -> []; 255 then strictly ascending values < 254 then 254)",
     "send-twice is the driver's job: the model executes a send-twice command once",
 ]
-BOUNDS = {"quick": "streams len<=6 (137 256); SetGroups pairs over 2^6-subsets of low and high byte (3 x 4096 x 4 destinations); all 64 short addresses x {object, int} x 16 group selectors on 8 pairs + faults",
+BOUNDS = {"quick": "streams len<=6 (137 256); SetGroups pairs over 2^6-subsets of low and high byte (3 x 4096 x 5 destinations incl. all-unaddressed with three such units); all 64 short addresses x {object, int} x 16 group selectors on 8 pairs + faults",
           "thorough": "streams len<=7 (960 799); SetGroups pairs over 2^8-subsets (3 x 65 536 x 4 destinations)"}
 
 ALPHA = ["none", "err", 0, 1, 6, 254, 255]
@@ -42,7 +42,7 @@ def shards(tier):
     out.append(("qgroups_faults",))
     nb = 6 if tier == "quick" else 8
     for mode in ("low-low", "high-high", "low-high"):
-        for dest in ("short", "int", "group", "broadcast"):
+        for dest in ("short", "int", "group", "broadcast", "unaddressed"):
             parts = 1 if tier == "quick" else 8
             for p in range(parts):
                 out.append(("setgroups", mode, dest, nb, p, parts))
@@ -175,7 +175,7 @@ def check_qgroups(res, mask, fault=None, sa=7, as_int=False):
 
 def check_setgroups(res, dest, emask, rmask, fault=None, sa=5, GSEL=3):
     from dali.sequences import SetGroups
-    from dali.address import GearShort, GearGroup, GearBroadcast
+    from dali.address import GearShort, GearGroup, GearBroadcast, GearBroadcastUnaddressed
     from dali.exceptions import DALISequenceError
     from dali import frame as F
     existing, requested = groups_of(emask), groups_of(rmask)
@@ -188,6 +188,11 @@ def check_setgroups(res, dest, emask, rmask, fault=None, sa=5, GSEL=3):
         target = [G.Gear(short=sa, groups=existing | {GSEL}), G.Gear(short=(sa + 4) % 64, groups={GSEL, 15} | ({14} if GSEL == 15 else set()))]
         others = [G.Gear(short=(sa + 1) % 64, groups={1, 9} - {GSEL})]
         addr = GearGroup(GSEL)
+    elif dest == "unaddressed":
+        # all gear WITHOUT a short address: several such units, each with another membership, answer queries together
+        target = [G.Gear(short=None, groups=existing), G.Gear(short=None, groups={0, 7, 8}), G.Gear(short=None, groups=set())]
+        others = [G.Gear(short=sa, groups={1, 9})]
+        addr = GearBroadcastUnaddressed()
     else:
         target = [G.Gear(short=sa, groups=existing), G.Gear(short=None, groups={0, 7, 8})]
         others = []
